@@ -44,6 +44,48 @@ def effect_nodes(ctx, f, cfg, summ, exclude_calls=()):
     return out
 
 
+def evaluation_registers_nothing(ctx, rule):
+    """Parameter.__set__ must evaluate a reference BEFORE it can validate the value; when the value is then rejected,
+    whatever that evaluation did stays.  So evaluating a reactive expression must register no watcher: no function
+    reachable from rx._resolve (through self-method calls, rx properties read through self, and `<x>._resolve()` of a
+    predecessor) calls a watcher-registering method (`_watch`, `watch`, `watch_values`)."""
+    RX = "param.reactive.rx"
+    cls = ctx.repo.cls(RX)
+    start = ctx.repo.func(RX + "._resolve")
+    getters = {m: [g for g in gs if g.has_decorator("property")] for m, gs in cls.methods.items()}
+    props = {m: gs[0] for m, gs in getters.items() if gs}
+    seen, work, order = set(), [start], []
+    while work:
+        g = work.pop()
+        if g.qualname in seen:
+            continue
+        seen.add(g.qualname)
+        order.append(g)
+        selfname = g.params[0] if g.params else "self"
+        for sub in ast.walk(g.node):
+            if isinstance(sub, ast.Call) and isinstance(sub.func, ast.Attribute):
+                recv, m = sub.func.value, sub.func.attr
+                if (isinstance(recv, ast.Name) and recv.id == selfname) or m == "_resolve":
+                    t = ctx.hier.resolve(RX, m)
+                    if t is not None:
+                        work.append(t)
+            if isinstance(sub, ast.Attribute) and isinstance(sub.ctx, ast.Load) and isinstance(sub.value, ast.Name) and sub.value.id == selfname and sub.attr in props:
+                work.append(props[sub.attr])
+    ctx.require(len(order) >= 3, "the evaluation closure of rx._resolve has fewer than 3 functions (%d)" % len(order))
+    bad = []
+    for g in order:
+        for c in ast.walk(g.node):
+            if isinstance(c, ast.Call) and isinstance(c.func, ast.Attribute) and c.func.attr in ("_watch", "watch", "watch_values"):
+                bad.append((g, c))
+    if bad:
+        g, c = bad[0]
+        ctx.fail(rule, g, c, "evaluating a reactive expression registers a watcher (`%s` in %s, reachable from rx._resolve): Parameter.__set__ evaluates a reference before it validates the value, so an "
+                             "assignment that is then REJECTED leaves a new watcher on the reference's source object" % (norm(c)[:80], g.qualname.rsplit(".", 1)[-1]),
+                 key="%s::evaluation-registers-watcher" % g.qualname, input="t.x = src.param.v.rx() * 50   # never evaluated before, current value invalid for x -> rejected, src keeps a new watcher")
+    else:
+        ctx.ok(rule, start, start.node, "no function in the evaluation closure of rx._resolve (%d functions: %s) registers a watcher" % (len(order), ", ".join(sorted(g.name for g in order))[:200]))
+
+
 def run(ctx):
     ctx.rule("R02.e", "Event model: Event.__set__ interpreted abstractly on mode (set-reset / set / reset) x the assignment proper succeeds / is refused / a watcher raises: in set-reset the Event is assigned and then reset whatever happens, in set (held so by update/trigger while it is delivered) it is assigned and NOT reset, in reset it is only reset", floor=1)
     ctx.rule("R02.a", "in Parameter.__set__ no observable effect (value store, link install/drop, task cancel, "
@@ -70,7 +112,10 @@ def run(ctx):
                       "a rejection there leaves the value changed, nobody notified and every link of the object dead (not followed: the module helper extract_dependencies, whose resolution "
                       "already ran in _resolve_ref before the store)", floor=3)
     ctx.rule("R02.m", "setter model: Parameter.__set__ interpreted abstractly on every combination (576) of route x constant/readonly x validation outcome x identity x reference mode x watchers x batching agrees with the specification of this property (see checks/setter_model.py)", floor=1)
+    ctx.rule("R02.v", "evaluating a reference registers nothing: no function reachable from rx._resolve (self-method calls, rx properties, a predecessor's _resolve) calls _watch / watch / "
+                      "watch_values -- Parameter.__set__ evaluates the reference before it validates, so a watcher registered there survives a rejected assignment", floor=1)
     ctx.rule("R02.u", "update model: Parameters._update interpreted abstractly (entry batching flag x key orders incl. an Event key x a rejected or unknown key at every position x a value identical to the current one, 60 cases): flag restored, flush exactly once iff outermost and after the restore, keys applied in order up to the failing one, Event mode and reset, complete previous-values mapping", floor=1)
+    evaluation_registers_nothing(ctx, "R02.v")
     ctx.not_decided += ["that callees are effect-free before their own raises (Composite._post_setter assigns constituents one by one)",
                         "equality of the complete observable state before/after (needs execution)"]
     ctx.assumptions.append("frozen exclusion: the scheduling done inside _resolve_ref for coroutine references (there is no current value to reject)")
